@@ -257,9 +257,12 @@ int main(int argc, char** argv) {
     std::vector<Op> A = alphabet(thorough);
     std::vector<std::vector<Op>> scripts;  // all scripts of length 1..2
     for (auto& a : A) scripts.push_back({a});
-    for (auto& a : A)
-        for (auto& b : A) scripts.push_back({a, b});
-    int maxcalls = thorough ? 5 : 4;
+    // two-call scripts only over the base alphabet (the thorough extras appear in one-call scripts): the space
+    // of script tuples is what dominates the cost
+    std::vector<Op> A2 = alphabet(false);
+    for (auto& a : A2)
+        for (auto& b : A2) scripts.push_back({a, b});
+    int maxcalls = 4;
     int maxthreads = thorough ? 4 : 3;
     // enumerate non-decreasing tuples of script indices (threads are symmetric)
     std::vector<std::vector<int>> tuples;
@@ -270,6 +273,7 @@ int main(int argc, char** argv) {
             int c = (int)scripts[i].size();
             if (calls + c > maxcalls) continue;
             if (!thorough && cur.size() >= 2 && calls + c > 3) continue;  // quick: 3 threads only with one call each
+            if (thorough && cur.size() >= 2 && calls + c > (cur.size() >= 3 ? 4 : 3)) continue;  // thorough: 3 threads <= 3 calls, 4 threads one call each
             cur.push_back(i);
             gen(cur, i, calls + c);
             cur.pop_back();
@@ -298,7 +302,7 @@ int main(int argc, char** argv) {
             int calls = 0;
             for (auto& s : ss) calls += (int)s.size();
             sc.bound_quick = 1;
-            sc.bound_thorough = (ss.size() == 2) ? 2 : (ss.size() == 3 && calls <= 3) ? 2 : 1;
+            sc.bound_thorough = (ss.size() <= 3) ? 2 : 1;
             sc.horizon = 5000;
             sc.whole = true;
             sc.spurious_pass = thorough && ss.size() == 2;
@@ -334,7 +338,7 @@ int main(int argc, char** argv) {
                 auto fn = v.fn;
                 sc.body = [fn, n, g]() { fn(n, g); };
                 sc.bound_quick = 1;
-                sc.bound_thorough = n <= 2 ? 3 : 2;
+                sc.bound_thorough = n <= 2 ? 3 : (n == 3 ? 2 : 1);
                 sc.horizon = 20000;
                 sc.whole = (n <= 2);
                 // condition-variable waits may wake spuriously: one injected spurious wake-up per execution
